@@ -7,6 +7,7 @@ lvs_validator(checker, app, anchor) on legacy NDNApps over the virtual loop with
   Scenario       one world, several validator instances (one application + face each);
                  stimuli = Env actions of the spec (NewValidator, Validate, FetchReply)
 """
+import asyncio as aio
 import contextvars
 import logging
 from datetime import datetime, timedelta
@@ -276,10 +277,23 @@ def reset_default_storages():
                 d._cache.clear()
 
 
+NACK_REASONS = [150, 50, 100, 0, 151, 1000]
+
+
+def inst_of(slot):
+    """slot -> validator instance (TrustChain.tla: I)"""
+    return {'v1b': 'v1', 'v2b': 'v2'}.get(slot, slot)
+
+
 class Scenario:
-    def __init__(self, world, insts, kt='ec', pool=None, mat_cache=None):
+    """One world; validator instances `insts`, each on its own legacy NDNApp + face or (same_app) all on one;
+    `slots` = validations that may be in progress at once ("v1b" = second validation on v1 while the first waits)."""
+
+    def __init__(self, world, insts, kt='ec', pool=None, mat_cache=None, slots=None, same_app=False):
         self.world = world
         self.insts = list(insts)
+        self.slots = list(slots) if slots else list(insts)
+        self.same_app = same_app
         self.sess = Session()
         self.sess.__enter__()
         reset_default_storages()
@@ -290,57 +304,84 @@ class Scenario:
             self.mat = materialise(world, kt, pool)
             if mat_cache is not None:
                 mat_cache[key] = self.mat
-        self.app, self.face, self.validator, self.status, self.seen, self.wire, self.task = {}, {}, {}, {}, {}, {}, {}
-        for v in self.insts:
-            self.app[v], self.face[v] = new_app('legacy')
-            self.status[v] = 'none'
-            self.seen[v] = 0
-            self.wire[v] = []
-            self.task[v] = None
-        self.pending = {}      # v -> list of unanswered Interest wires
-        # An application that validates packet after packet does so from one task. All validations of an instance
-        # therefore run in ONE context (contextvars are per task): state that a validation leaves behind in a
-        # context variable is seen by the next one, as it would be in such an application.
+        self.apps = ['app'] if same_app else list(self.insts)
+        self.app, self.face, self.seen, self.wire, self.sender = {}, {}, {}, {}, {}
+        for a in self.apps:
+            self.app[a], self.face[a] = new_app('legacy')
+            self.seen[a] = 0
+            self.wire[a] = []
+            self.sender[a] = []                 # task that sent the i-th packet of face a
+            self._tap(a)
+        self.validator, self.status = {}, {v: 'none' for v in self.insts}
+        self.task = {s: None for s in self.slots}
+        self.cur, self.asked = {}, {s: [] for s in self.slots}
+        self.pending = {a: [] for a in self.apps}      # unanswered certificate Interests: (abstract name, wire)
+        # An application that validates packet after packet does so from one task: the validations of an instance run
+        # in ONE context (contextvars are per task), so what a validation leaves behind in a context variable is seen
+        # by the next one. A validation started while another one of the instance is still in progress must be a task
+        # of its own, spawned from somewhere else in the application: it gets a copy of the spawner's context (not of
+        # the context the first validation is in the middle of using).
         self.ctx = {v: contextvars.copy_context() for v in self.insts}
+        self.spawner_ctx = contextvars.copy_context()
         self.serv = {n: c['serv'] for n, c in dict(world['certs']).items()}   # changes with heal()
-        self.req_start = {}    # v -> number of requests before its current validation started
-        self.dead = set()      # instances whose validation re-requested a certificate it was already resolving
+        self.dead = set()      # instances with a validation that re-requested a certificate it was already resolving
+        self.done_order = []
         self.out = []
-        self.cur = {}
         self.errors = []
+        self.nacks = 0
+
+    def app_of(self, v):
+        return 'app' if self.same_app else v
+
+    def _tap(self, a):
+        face, sender = self.face[a], self.sender[a]
+        orig = face.send
+
+        def send(data):
+            try:
+                sender.append(aio.current_task())
+            except RuntimeError:
+                sender.append(None)
+            orig(data)
+        face.send = send
 
     def close(self):
         self.sess.__exit__(None, None, None)
 
     def _scan(self):
-        for v in self.insts:
-            f = self.face[v]
-            while self.seen[v] < len(f.out):
-                w = f.out[self.seen[v]]
-                self.seen[v] += 1
+        slot_of = {t: s for s, t in self.task.items() if t is not None}
+        for a in self.apps:
+            f = self.face[a]
+            while self.seen[a] < len(f.out):
+                w = f.out[self.seen[a]]
+                s = slot_of.get(self.sender[a][self.seen[a]])
+                self.seen[a] += 1
                 name, param, _, _ = enc.parse_interest(w)
                 n = self.mat.abstract.get(enc.Name.to_bytes(name), 'unknown:' + enc.Name.to_str(name))
-                if v not in self.dead and self.task[v] is not None and n in self.wire[v][self.req_start.get(v, 0):]:
-                    # the same certificate requested twice within one validation: it follows a key-locator loop
-                    self.dead.add(v)
-                    self.out.append((v, self.cur[v], 'diverged'))
-                self.wire[v].append(n)
-                self.pending.setdefault(v, []).append(w)
+                if s is not None:
+                    if n in self.asked[s] and inst_of(s) not in self.dead:
+                        # the same certificate requested twice within one validation: it follows a key-locator loop
+                        self.dead.add(inst_of(s))
+                        self.out.append((inst_of(s), self.cur[s], 'diverged'))
+                    self.asked[s].append(n)
+                self.wire[a].append(n)
+                self.pending[a].append((n, w))
                 if param.can_be_prefix or not param.must_be_fresh:
                     self.errors.append('certificate Interest for %s with can_be_prefix=%s must_be_fresh=%s' % (
                         n, param.can_be_prefix, param.must_be_fresh))
-            t = self.task[v]
-            if t is not None and t.done():
-                self.task[v] = None
-                if v in self.dead:
-                    continue
-                if t.cancelled():
-                    r = 'cancelled'
-                elif t.exception() is not None:
-                    r = 'exc:' + type(t.exception()).__name__
-                else:
-                    r = 'T' if t.result() is True else 'F' if t.result() is False else 'other:%r' % (t.result(),)
-                self.out.append((v, self.cur[v], r))
+        for s in self.done_order:
+            t = self.task[s]
+            self.task[s] = None
+            if inst_of(s) in self.dead:
+                continue
+            if t.cancelled():
+                r = 'cancelled'
+            elif t.exception() is not None:
+                r = 'exc:' + type(t.exception()).__name__
+            else:
+                r = 'T' if t.result() is True else 'F' if t.result() is False else 'other:%r' % (t.result(),)
+            self.out.append((inst_of(s), self.cur[s], r))
+        del self.done_order[:]
 
     # ---- stimuli
     def new_validator(self, v, a):
@@ -348,7 +389,7 @@ class Scenario:
         # reuses: the validator must have taken what it needs at construction
         buf = bytearray(self.mat.wire[a])
         try:
-            self.validator[v] = lvs_validator(checker_for(self.mat.sch), self.app[v], buf)
+            self.validator[v] = lvs_validator(checker_for(self.mat.sch), self.app[self.app_of(v)], buf)
             self.status[v] = 'ok'
         except ValueError:
             self.status[v] = 'refused'
@@ -360,11 +401,23 @@ class Scenario:
         self.sess.loop.settle()
         self._scan()
 
-    def validate(self, v, p):
+    def free_slot(self, v):
+        """the slot a new validation of instance v takes (None: all busy)"""
+        for s in self.slots:
+            if inst_of(s) == v and self.task[s] is None:
+                return s
+        return None
+
+    def validate(self, s, p):
+        v = inst_of(s)
         name, _, _, sig = enc.parse_data(self.mat.wire[p])
-        self.cur[v] = p
-        self.req_start[v] = len(self.wire[v])
-        self.task[v] = self.sess.loop.create_task(self.validator[v](name, sig), context=self.ctx[v])
+        self.cur[s] = p
+        self.asked[s] = []
+        busy = any(t is not None for u, t in self.task.items() if inst_of(u) == v)
+        ctx = self.spawner_ctx.copy() if busy else self.ctx[v]
+        t = self.sess.loop.create_task(self.validator[v](name, sig), context=ctx)
+        t.add_done_callback(lambda _t, s=s: self.done_order.append(s))
+        self.task[s] = t
         self.sess.loop.settle()
         self._scan()
 
@@ -372,35 +425,43 @@ class Scenario:
         """the certificate n, which could not be fetched so far, is published"""
         self.serv[n] = 'yes'
 
-    def serv_of(self, v):
-        """what the world answers to the oldest unanswered certificate Interest of instance v"""
-        name, _, _, _ = enc.parse_interest(self.pending[v][0])
-        n = self.mat.abstract.get(enc.Name.to_bytes(name))
+    def waiting(self):
+        """[(application, abstract certificate name)] with unanswered Interests, oldest first, no duplicates"""
+        out = []
+        for a in self.apps:
+            for n, _ in self.pending[a]:
+                if (a, n) not in out:
+                    out.append((a, n))
+        return out
+
+    def serv_of(self, n):
         return self.serv.get(n, 'absent')
 
-    def fetch_reply(self, v, kind):
-        w = self.pending[v].pop(0)
+    def fetch_reply(self, a, n, kind):
+        """answer the Interest(s) for certificate n pending on application a (one Data / Nack answers all of them)"""
+        mine = [w for m, w in self.pending[a] if m == n]
         if kind == 'yes':
-            name, _, _, _ = enc.parse_interest(w)
-            n = self.mat.abstract[enc.Name.to_bytes(name)]
-            self._deliver(v, self.mat.wire[n])
+            self.pending[a] = [(m, w) for m, w in self.pending[a] if m != n]
+            self._deliver(a, self.mat.wire[n])
         elif kind == 'nack':
-            self._deliver(v, enc.make_network_nack(w, 150))
+            self.pending[a] = [(m, w) for m, w in self.pending[a] if m != n]
+            self._deliver(a, enc.make_network_nack(mine[0], NACK_REASONS[self.nacks % len(NACK_REASONS)]))
+            self.nacks += 1
         else:
-            # no answer: the lifetime (4 s) passes - for every instance that is waiting
+            # no answer: the lifetime (4 s) passes - for every validation that is waiting
             self.sess.loop.advance_to(self.sess.loop.time() + 4.0)
-            for u in self.insts:
+            for u in self.apps:
                 self.pending[u] = []
         self.sess.loop.settle()
         self._scan()
 
-    def _deliver(self, v, wire):
+    def _deliver(self, a, wire):
         typ, _ = enc.parse_tl_num(wire)
         box = {}
 
         async def go():
             try:
-                await self.face[v].callback(typ, wire)
+                await self.face[a].callback(typ, wire)
             except BaseException as e:  # noqa
                 box['e'] = e
         self.sess.spawn(go())
@@ -410,6 +471,6 @@ class Scenario:
 
     # ---- projection
     def post(self):
-        return {'wire': {v: list(self.wire[v]) for v in self.insts},
+        return {'wire': {a: list(self.wire[a]) for a in self.apps},
                 'out': [{'v': v, 'p': p, 'r': r} for v, p, r in self.out],
                 'inst': {v: self.status[v] for v in self.insts}}
